@@ -53,6 +53,10 @@ def c18(case, f):
         roots = {d.split(".")[0] for d in f.get("dups", [])}
         if roots and roots <= (feat["same_alias_subqueries"] | feat["case_subquery_aliases"]):
             return "KF-23"
+        # KF-23c: a column written to a file path prints as its bare name, so the same column name written to two paths gives two nodes with one id
+        if f.get("kinds") and set(f["kinds"]) == {"col"} and all("." not in d for d in f.get("dups", [])) and \
+                len(_re.findall(r"(?i)\boverwrite\s+(?:local\s+)?directory\b", case.get("sql", ""))) >= 2:
+            return "KF-23c"
         # KF-23b: the legacy analyzer registers a CTE whose body is a set operation of parenthesised branches twice (whole body / first branch)
         if case.get("dialect") == "non-validating" and roots and roots <= (feat["same_alias_subqueries"] | feat["case_subquery_aliases"] | feat["cte_paren_setop_names"]):
             return "KF-23b"
